@@ -949,3 +949,58 @@ Example C17_log_nice_model_not_idempotent_refuted :
     log_nice b mn1 mx1 o = (qpow 2 (-32), mx1) /\ ~ (qpow 2 (-32) == mn1)%Q.
 Proof. exact log_nice_model_not_idempotent_refuted. Qed.
 End LogNiceUnmoved.
+
+Local Open Scope Z_scope.
+
+(* ================= (group hM) the exponent interval of log_exps is the real-valued one ================= *)
+(* Composition of C17_floor_log_is_floor_of_log / C17_ceil_log_is_ceil_of_log with C17_near_inside_sound /
+   C17_near_outside_sound into ONE statement: on a positive domain emin <= emax whose ends are within a factor
+   Base^k, k < 10^10 (so that the slack is below 1; every float64 domain is), if no slack decision of log_exps is
+   undecided (le_amb = false) then with lmin = log_b emin, lmax = log_b emax, slack = 1e-10 (lmax - lmin)
+   (log.go:111-131):
+      le_in_lo  = ceil (lmin - slack),  le_in_hi  = floor (lmax + slack)    (ticks inside the domain)
+      le_out_lo = floor (lmin + slack), le_out_hi = ceil (lmax - slack)     (Nice: rounding out)
+   floor and ceil stated by their universal properties over the integers.  Real numbers: stdlib axioms. *)
+From MM Require Import Proofs.TicksLogExpR.
+Theorem C17_log_exps_are_real_valued : forall (b : Z) (emin emax : Q) (k : Z), 2 <= b -> (0 < emin)%Q -> (emin <= emax)%Q ->
+  0 <= k < 10 ^ 10 -> (emax <= emin * qpow b k)%Q ->
+  le_amb (log_exps b emin emax) = false ->
+  let lmin := (ln (Q2R emin) / ln (IZR b))%R in
+  let lmax := (ln (Q2R emax) / ln (IZR b))%R in
+  let slack := (Q2R slack_factor * (lmax - lmin))%R in
+  let e := log_exps b emin emax in
+  (forall n : Z, le_in_lo e <= n <-> (lmin - slack <= IZR n)%R) /\
+  (forall n : Z, n <= le_in_hi e <-> (IZR n <= lmax + slack)%R) /\
+  (forall n : Z, n <= le_out_lo e <-> (IZR n <= lmin + slack)%R) /\
+  (forall n : Z, le_out_hi e <= n <-> (lmax - slack <= IZR n)%R).
+Proof. exact log_exps_real_q. Qed.
+Print Assumptions C17_log_exps_are_real_valued.
+Example C17_log_exps_real_example :
+  log_exps 10 3 2000 = mkLE 1 3 0 4 false /\ Qle_bool 2000 (3 * qpow 10 3) = true.
+Proof. vm_compute. split; reflexivity. Qed.
+
+(* (group hM) three facts that close gaps of the Log statements above.
+   (1) On a domain whose folded ends are positive finite float64 values, every admitted exponent of every base >= 2
+   lies in [-1074, 1024] and the level-0 counts are at most 2100 <= maxInt: the hypotheses
+   `log_count e _ 0 <= MAXINT` of C17_log_ticks_at_level / C17_log_ticks / C17_log_nice_count_nonincreasing hold on
+   every domain the Go code can hold.  (2) Nice on a NEGATIVE domain mn < mx < 0: each new end is the old one or
+   minus a power of the base that is a positive finite float64 (mirror image of C17_log_nice_ends_are_powers).
+   (3) The minor-tick list (TicksAtLevel below level 0) is strictly ascending on the folded positive domain; with
+   the membership statement log_minor_ticks_spec the list is determined. *)
+From Coq Require Import Sorted.
+From MM Require Import Proofs.TicksLogGroupM.
+Theorem C17_log_float_domain_facts :
+  (forall b emin emax, 2 <= b -> f64_pos_ok emin = true -> f64_pos_ok emax = true ->
+     let e := log_exps b emin emax in
+     log_count e false 0 <= 2100 /\ log_count e true 0 <= 2100 /\ 2100 <= MAXINT /\
+     -1074 <= le_in_lo e <= 1024 /\ -1074 <= le_in_hi e <= 1024 /\ -1074 <= le_out_lo e <= 1024 /\ -1074 <= le_out_hi e <= 1024) /\
+  (forall b mn mx o a c, (mx < 0)%Q -> (mn < mx)%Q -> log_nice b mn mx o = (a, c) ->
+     ((a == mn)%Q \/ exists n, a = (- qpow b n)%Q /\ f64_pos_ok (qpow b n) = true) /\
+     ((c == mx)%Q \/ exists n, c = (- qpow b n)%Q /\ f64_pos_ok (qpow b n) = true)) /\
+  (forall b e emin emax ro l, 2 <= b -> l < 0 -> StronglySorted Qlt (log_ticks_pos b e emin emax ro l)).
+Proof. exact log_float_domain_facts. Qed.
+Print Assumptions C17_log_float_domain_facts.
+Example C17_log_float_domain_example :
+  f64_pos_ok (3 # 1000) = true /\ f64_pos_ok 2000 = true /\
+  log_ticks_pos 10 (log_exps 10 3 45) 3 45 false (-1) = [3; 4; 5; 6; 7; 8; 9; 10; 20; 30; 40]%Q.
+Proof. vm_compute. repeat split; reflexivity. Qed.
